@@ -1306,11 +1306,19 @@ def compile_match_expression(compiler, expr, root, subject, clauses):
             guard = compiler.compile(guard)
             if guard.stmts:
                 fname = compiler.get_anon_var()
+                # Pass the names bound by the pattern as arguments. In a
+                # class body, a nested function can't see them otherwise.
+                names = sorted({
+                    name
+                    for node in ast.walk(pattern)
+                    for name in [getattr(node, "rest", None) or getattr(node, "name", None)]
+                    if isinstance(node, (ast.MatchAs, ast.MatchStar, ast.MatchMapping))
+                    and name})
                 guardret = Result() + asty.FunctionDef(
                     guard,
                     name=fname,
                     args=ast.arguments(
-                        args=[],
+                        args=[asty.arg(guard, arg=name, annotation=None) for name in names],
                         kwarg=None,
                         posonlyargs=[],
                         kwonlyargs=[],
@@ -1322,7 +1330,8 @@ def compile_match_expression(compiler, expr, root, subject, clauses):
                     **({"type_params": []} if PY3_12 else {}),
                 )
                 lifted_if_defs.append(guardret)
-                guard = Result(expr=asty.parse(guard, f"{fname}()").body[0].value)
+                guard = Result(expr=asty.parse(
+                    guard, f"{fname}({', '.join(names)})").body[0].value)
 
         match_cases.append(
             ast.match_case(
